@@ -117,7 +117,8 @@ def match_known(known, pid, obl, cex_args):
     try:
       dec = [float(a['__float__']) if isinstance(a, dict) and '__float__' in a else a for a in (cex_args or [])]
       if eval(expr, {'__builtins__': {}}, {'args': dec, 'len': len, 'abs': abs, 'str': str, 'any': any, 'all': all,
-                                            'isinstance': isinstance, 'float': float, 'int': int}):
+                                            'isinstance': isinstance, 'float': float, 'int': int, 'min': min, 'max': max,
+                                            'sorted': sorted}):
         return k
     except Exception:
       continue
@@ -277,6 +278,8 @@ def main():
       'violations': len(violations),
   }
   evdir = os.environ.get('VERIF_EVIDENCE_DIR', os.path.join(VERIF, 'evidence'))   # redirected only by tools/run_seeds.py
+  if a.only and 'VERIF_EVIDENCE_DIR' not in os.environ:
+    evdir = os.path.join(VERIF, 'evidence', '.partial')      # a subset run (development aid) never replaces the full evidence
   os.makedirs(evdir, exist_ok=True)
   json.dump(evidence, open(os.path.join(evdir, pid + '.json'), 'w'), indent=1)
 
